@@ -342,20 +342,18 @@ Lemma M_refl w : M w w. Proof. unfold M. lia. Qed.
 Lemma M_trans a b c : M a b -> M b c -> M a c. Proof. unfold M. lia. Qed.
 
 Lemma tr_recv_evs_bytes es : forall len tmo left t r es' t' tr,
-  1 <= len -> tr_recv_evs es len tmo left t = (r, es', t', tr) ->
+  tr_recv_evs es len tmo left t = (r, es', t', tr) ->
   match r with
   | Some (inr b) => ev_bytes es = (length b + ev_bytes es')%nat
   | _ => (ev_bytes es' <= ev_bytes es)%nat
   end.
 Proof.
-  induction es as [|e es IH]; intros len tmo left t r es' t' tr Hl H; cbn [tr_recv_evs] in H.
+  induction es as [|e es IH]; intros len tmo left t r es' t' tr H; cbn [tr_recv_evs] in H.
   - injection H as <- <- _ _. cbn. lia.
   - destruct e as [d|c|v|].
     + destruct d as [|x d]; [apply IH in H; auto|].
       injection H as <- <- _ _.
       set (b := x :: d) in *. set (n := Z.min len (zlen b)).
-      assert (Hz : 1 <= zlen b) by (unfold b; rewrite zlen_cons; pose proof (zlen_nonneg d); lia).
-      assert (Hn : 0 <= n <= zlen b) by (unfold n; lia).
       assert (Hs : (length (firstn (Z.to_nat n) b) + length (skipn (Z.to_nat n) b) = length b)%nat).
       { rewrite <- app_length, firstn_skipn. reflexivity. }
       cbn [ev_bytes]. fold b.
@@ -367,16 +365,16 @@ Proof.
     + injection H as <- <- _ _. cbn [ev_bytes]. lia.
 Qed.
 
-Lemma tr_recv_bytes len tmo w : 1 <= len ->
+Lemma tr_recv_bytes len tmo w :
   match tr_recv len tmo w with
   | Ok (inr b) w' => ev_bytes (evs w) = (length b + ev_bytes (evs w'))%nat
   | Ok (inl _) w' => M w w'
   | Exc _ w' => M w w'
   end.
 Proof.
-  intros Hl. unfold tr_recv.
+  unfold tr_recv.
   destruct (tr_recv_evs (evs w) len tmo (Z.max 0 tmo) (now w)) as [[[r es] t'] tr] eqn:E.
-  apply tr_recv_evs_bytes in E; [|exact Hl].
+  apply tr_recv_evs_bytes in E.
   destruct r as [[c|b]|]; [destruct (c =? -99)| |]; unfold M; cbn [evs]; exact E.
 Qed.
 
@@ -391,7 +389,7 @@ Proof.
   destruct (zlen acc >=? len) eqn:Eg; [unfold ret; lia|].
   rewrite Z.geb_leb in Eg. apply Z.leb_gt in Eg.
   unfold bind at 1. unfold get_now. unfold bind at 1.
-  pose proof (tr_recv_bytes (len - zlen acc) (e - now w) w ltac:(lia)) as Hr.
+  pose proof (tr_recv_bytes (len - zlen acc) (e - now w) w) as Hr.
   destruct (tr_recv (len - zlen acc) (e - now w) w) as [[c|b] w1|x w1]; try exact Hr.
   specialize (IH len e (acc ++ b) w1).
   destruct (tr_recv_all_loop f len e (acc ++ b) w1) as [[c|r] w2|x w2]; unfold M in *; rewrite ?app_length in IH; lia.
